@@ -138,9 +138,13 @@ Section Outcome.
 
   (* a call of compute_split_positions as the recursion makes them: a slab of
      valid indices, the modifiers of a well-formed node *)
+  (* a slab: distinct valid indices (the recursion starts from 0..n-1 and only permutes and splits) *)
+  Definition slab (perm : list nat) : Prop := NoDup perm /\ Forall (fun i => (i < npts)%nat) perm.
+
   Definition node_call (perm : list nat) (mods : list (num A)) : Prop :=
-    Forall (fun i => (i < npts)%nat) perm /\
-    exists cparts parts, cparts <> [] /\ mods = map (fun cp => a_div A (a_ofN A cp) (a_ofN A parts)) cparts.
+    slab perm /\
+    exists cparts parts, cparts <> [] /\ Forall (fun cp => 1 <= cp) cparts /\ parts = sumN cparts /\ parts < 2 ^ 60 /\
+                         mods = map (fun cp => a_div A (a_ofN A cp) (a_ofN A parts)) cparts.
 
   (* what a result tells: Ok; or site 4 / site 5 together with the call of
      compute_split_positions that caused it *)
@@ -155,30 +159,31 @@ Section Outcome.
     end.
 
   Definition outcome_spec (sch : scheme (num A)) : Prop :=
-    forall parts d, WfScheme A sch parts d ->
-    forall a perm, Forall (fun i => (i < npts)%nat) perm -> outcome (mjrec sch a perm).
+    forall parts d, WfScheme A sch parts d -> parts < 2 ^ 60 ->
+    forall a perm, slab perm -> outcome (mjrec sch a perm).
 
   Lemma go_ch_outcome a' : forall chs cparts d subs,
     Forall outcome_spec chs ->
     Forall2 (fun c cp => WfScheme A c cp d /\ 1 <= cp) chs cparts ->
-    Forall (Forall (fun i => (i < npts)%nat)) subs ->
+    Forall (fun cp => cp < 2 ^ 60) cparts ->
+    Forall slab subs ->
     outcome (go_ch A D (fun c s => mjrec c a' s) subs chs).
   Proof.
-    induction chs as [|c chs IH]; intros cparts d subs HP HW Hs.
+    induction chs as [|c chs IH]; intros cparts d subs HP HW Hbd Hs.
     - destruct subs; exact I.
     - destruct subs as [|s subs]; cbn [go_ch]; [exact I|].
       destruct (Nat.eqb_spec D 0); [lia|].
       inversion HP as [|? ? Pc Pt]; subst. inversion HW as [|? cp ? cps [Wc _] Wt]; subst.
-      inversion Hs as [|? ? Hs1 Hs2]; subst.
-      pose proof (Pc cp d Wc a' s Hs1) as O1.
+      inversion Hs as [|? ? Hs1 Hs2]; subst. inversion Hbd as [|? ? Hb1 Hb2]; subst.
+      pose proof (Pc cp d Wc Hb1 a' s Hs1) as O1.
       destruct (mjrec c a' s) as [l1| | |]; cbn [bind]; try exact O1.
-      pose proof (IH cps d subs Pt Wt Hs2) as O2.
+      pose proof (IH cps d subs Pt Wt Hb2 Hs2) as O2.
       destruct (go_ch A D (fun c0 s0 => mjrec c0 a' s0) subs chs); cbn [bind]; exact O2.
   Qed.
 
   Lemma mj_rec_outcome : forall sch, outcome_spec sch.
   Proof.
-    induction sch as [ns mods next IH] using scheme_ind2. intros parts d W a perm Hin.
+    induction sch as [ns mods next IH] using scheme_ind2. intros parts d W Hpb a perm [Hnd Hin].
     rewrite mj_rec_eq.
     inversion W as [mods' next' d'|ns' mods' children parts' d' cparts Hns Hlc HF Hsum Hmods]; subst.
     - change (0 =? 0) with true. cbv iota. exact I.
@@ -192,8 +197,16 @@ Section Outcome.
       set (mods := map (fun cp => a_div A (a_ofN A cp) (a_ofN A (sumN cparts))) cparts).
       assert (Hcne : cparts <> []).
       { intros ->. apply Forall2_len in HF. cbn [length] in HF. lia. }
+      assert (Hsnd : NoDup sorted).
+      { eapply Permutation_NoDup; [apply Permutation_sym; apply Hperm|exact Hnd]. }
       assert (Hcall : node_call sorted mods).
-      { split; [exact Hsin|]. exists cparts, (sumN cparts). split; [exact Hcne|reflexivity]. }
+      { split; [split; assumption|]. exists cparts, (sumN cparts). split; [exact Hcne|].
+        split; [|split; [reflexivity|split; [exact Hpb|reflexivity]]].
+        clear - HF. induction HF as [|? ? ? ? [_ H1] _ IHF]; constructor; assumption. }
+      assert (Hcb : Forall (fun cp => cp < 2 ^ 60) cparts).
+      { rewrite Forall_forall. intros cp Hcp. apply N.le_lt_trans with (2 := Hpb).
+        clear - Hcp. induction cparts as [|x t IHt]; [destruct Hcp|]. cbn [sumN fold_right]. fold (sumN t).
+        destruct Hcp as [<-|Hcp]; [lia|]. specialize (IHt Hcp). lia. }
       assert (Hmne : mods <> []) by (unfold mods; destruct cparts; [contradiction|discriminate]).
       destruct (csp_outcome wts sorted mods (blk sorted) ltac:(rewrite Hlen; exact Hsin) Hmne) as [E|[ps [E Hps]]].
       + rewrite E. cbn [bind outcome]. left. split; [reflexivity|]. exists sorted, mods. split; assumption.
@@ -205,8 +218,10 @@ Section Outcome.
           { rewrite Forall_forall in *. intros p Hp. specialize (Hps p Hp). lia. }
           congruence.
         * rewrite Es. cbn [bind]. apply split_many_ok in Es as [Hcat _].
-          eapply (go_ch_outcome _ children cparts d' subs (IH children eq_refl) HF).
-          rewrite Forall_forall. intros s Hs. rewrite Forall_forall in *. intros x Hx.
+          eapply (go_ch_outcome _ children cparts d' subs (IH children eq_refl) HF Hcb).
+          rewrite Forall_forall. intros s Hs. split.
+          { eapply NoDup_concat_In; [|exact Hs]. rewrite Hcat. exact Hsnd. }
+          rewrite Forall_forall in *. intros x Hx.
           apply Hsin. rewrite <- Hcat. eapply in_concat_of; eassumption.
   Qed.
 End Outcome.
@@ -247,9 +262,9 @@ Section TopOutcome.
     unfold multi_jagged.
     destruct (mj_leaf_count A root k m Hr Hk Hb Hm) as [sch [E [L W]]]. rewrite E. cbn [bind].
     unfold mj_with_scheme.
-    pose proof (mj_rec_outcome A D npts wts sorter blk HD Hlw (fun a l => proj1 (Hs a l)) sch k m W 0%nat (seq 0 npts)) as O.
-    assert (Hseq : Forall (fun i => (i < npts)%nat) (seq 0 npts)).
-    { rewrite Forall_forall. intros x Hx. apply in_seq in Hx. lia. }
+    pose proof (mj_rec_outcome A D npts wts sorter blk HD Hlw (fun a l => proj1 (Hs a l)) sch k m W Hb 0%nat (seq 0 npts)) as O.
+    assert (Hseq : slab npts (seq 0 npts)).
+    { split; [apply seq_NoDup|]. rewrite Forall_forall. intros x Hx. apply in_seq in Hx. lia. }
     specialize (O Hseq).
     destruct (mj_rec A D npts wts sorter blk sch 0 (seq 0 npts)) as [lvs| | |] eqn:El; cbn [bind]; try exact O.
     destruct (mj_rec_spec A D npts wts sorter blk cxlt (fun _ => 0) Hs sch k m W 0%nat (seq 0 npts) lvs El) as [_ [Q _]].
@@ -391,7 +406,7 @@ Section F64Site4.
   Lemma f64_first_threshold npts wts blk :
     Forall notneg wts -> first_threshold_not_below_zero F npts wts blk.
   Proof.
-    intros Hw perm mods [_ [cparts [parts [Hne ->]]]] E. unfold csp in E.
+    intros Hw perm mods [_ [cparts [parts [Hne [_ [_ [_ ->]]]]]]] E. unfold csp in E.
     destr_match_in E Esl; [|discriminate]. rename l into init.
     match type of E with bind ?g _ = _ => destruct g as [wl| |site|] eqn:Eg end; cbn [bind] in E; try discriminate.
     2:{ apply gather_panic_site in Eg. subst site. discriminate. }
